@@ -66,7 +66,8 @@ class Driver(object):
             rng = '' if (lo, hi) == (0, 0) else (', %d TO %d' % (lo, hi) if a.get('form', 0) == 0 or lo != hi else ', %d' % lo)
             stmt = '%s #%d%s' % (op.upper(), n, rng)
         else:
-            stmt = '%s #%d, %d' % (op.upper(), n, a['rec'])
+            # rec 0 = the form without a record number (the next record)
+            stmt = '%s #%d, %d' % (op.upper(), n, a['rec']) if a['rec'] else '%s #%d' % (op.upper(), n)
         r = self.s.ex(stmt)
         e = dict(a)
         e['stmt'] = stmt
@@ -138,9 +139,14 @@ def run(ctx):
                         lo = rng.randint(1, 8); r_ = [lo, rng.randint(lo, 8)]
                     a = {'op': 'unlock', 'n': n, 'r': r_, 'form': rng.randint(0, 1)}
                 else:
-                    a = {'op': rng.choice(['get', 'put']), 'n': n, 'rec': rng.randint(1, 8)}
+                    a = {'op': rng.choice(['get', 'put']), 'n': n, 'rec': rng.choice([0, 0, rng.randint(1, 8), rng.randint(1, 8), rng.randint(1, 8)])}
             else:
                 continue
+            foreign = [x for m in held if a['op'] in ('get', 'put') and m != a['n'] for x in held[m] if list(x) != [0, 0] and x[0] > 1]
+            if foreign and rng.random() < 0.35:
+                # step up to a range another number holds: explicit access to the record before it, then the implicit form
+                d.do({'op': 'get', 'n': a['n'], 'rec': rng.choice(foreign)[0] - 1})
+                a = {'op': a['op'], 'n': a['n'], 'rec': 0}
             e = d.do(a)
             ob = e['obs']
             openm = {i + 1: m for i, m in enumerate(ob['mode']) if m != 'closed'}
